@@ -785,7 +785,7 @@ long d_string_replace_text_in_range(DString * d, size_t pos, size_t len, const c
 
 		char * match = strstr(&(d->str[pos]), original);
 
-		while (match && (match - d->str < stop)) {
+		while (match && ((size_t)(match - d->str) + len_o <= stop)) {
 			pos = match - d->str;
 			d_string_erase(d, match - d->str, len_o);
 			d_string_insert(d, match - d->str, replace);
